@@ -9,7 +9,7 @@ from oracle_util import *  # noqa
 from protocol import from_real
 
 ID = "C16"
-LEAN_MODULE = ["SCoda.Props.C16", "SCoda.Props.C16b", "SCoda.Props.Purity", "SCoda.Props.C16c", "SCoda.Props.C16cW", "SCoda.Props.WrapTie", "SCoda.Props.ElemTie", "SCoda.Props.StaticLink"]
+LEAN_MODULE = ["SCoda.Props.C16", "SCoda.Props.C16b", "SCoda.Props.Purity", "SCoda.Props.C16c", "SCoda.Props.C16cW", "SCoda.Props.WrapTie", "SCoda.Props.ElemTie", "SCoda.Props.StaticLink", "SCoda.Props.HeapTie"]
 EXTRA_TARGETS = ["heapdriver"]
 CLAUSES = [
     ("a message-wise copy holds the same message values as its original (equals: C17.refl)", ["SCoda.C16.copy_derive", "SCoda.C16.copyAll_spec"]),
@@ -51,6 +51,8 @@ CLAUSES = [
       "SCoda.ElemTie.compFromSequences_eq", "SCoda.ElemTie.elem_defaults_pinned"]),
     ('the link through which the translated sequences_split_bars reads the signature and key queues (AbsoluteSequence.get_message_times_of_type, a hand-written definition in Model/StaticLib.lean) is what the TRANSLATED method computes on a freshly built list, read back through the heap (audit round 3 R1: an edit of that method now breaks this obligation)',
      ["SCoda.StaticLink.timesOfType_link", "SCoda.AbsTie2.getMessageTimesOfType_eq", "SCoda.AbsTie2.timesOfType_init"]),
+    ('TIE BY TRANSLATION (identity level): Message.copy, AbstractSequence.copy, Sequence.__init__/copy/split, Bar.__init__/copy, Track.__init__/copy and Composition.copy, re-translated from the source on every run with respect to object identity (allocation, stores, returned references; Gen/HeapFns.lean over the cell heap of Model/HeapOps.lean; value decisions from the oracle exactly as HeapOps abstracts them — a scalar attribute the identity model does not carry, Bar.default_channel, is checked to be assigned scalars only and the one message built from it takes its value from the oracle; view-level normalise_relative / pad / conversions / RelativeSequence.split are links), are EQUAL (same heap, same identities) to the HeapOps steps msgCopy / copyView / seqCopy / split / barInit / barCopy / trkInit / trkCopy / cmpCopy, on heaps without dangling identities whose non-stale views exist and whose messages have a channel; hence the freshness facts hold of the translated routes. sequences_split_bars (its loop skeleton; its constituent steps are the tied functions) remains tied by the sampled heap-history correspondence',
+     ["SCoda.HeapTie.messageCopy_eq", "SCoda.HeapTie.abstractSequenceCopy_eq", "SCoda.HeapTie.sequenceCopy_eq", "SCoda.HeapTie.sequenceSplit_eq", "SCoda.HeapTie.barInit_eq", "SCoda.HeapTie.barCopy_eq", "SCoda.HeapTie.trackInit_eq", "SCoda.HeapTie.trackCopy_eq", "SCoda.HeapTie.compositionCopy_eq", "SCoda.HeapTie.messageCopy_fresh", "SCoda.HeapTie.sequenceCopy_fresh", "SCoda.HeapTie.sequenceSplit_fresh", "SCoda.HeapTie.barCopy_fresh", "SCoda.HeapTie.trackCopy_fresh", "SCoda.HeapTie.compositionCopy_fresh", "SCoda.HeapTie.messageCopy_eq_statement_false"]),
 ]
 RULE = ("originals (<=6 notes, 1-2 channels, key signatures, control / program changes, time signatures anywhere for copy / split and on bar lines for the "
         "bar routes) x derivation routes (Sequence.copy, split, sequences_split_bars with "
